@@ -32,17 +32,7 @@ MODULE = "ColaVerif.Properties.C07"
 DRIVER = "DriverC07.lean"
 
 # defects found by this check and not yet decided (none at present)
-PROVISIONAL_KNOWN = {
-    # found by the thorough tier of round 2 (seed 0); not yet decided
-    "krylov-cut-single-precision":
-        "slogdet(A, Arnoldi()) for a complex64 operator with an eigenvalue on the negative real axis returns a wrong PHASE (logabs is right): "
-        "cola/linalg/logdet/logdet.py `clog` snaps rounding-level imaginary parts with the eps of the eigenvalue array's dtype, but "
-        "cola/backends/np_fns.py `eig` casts the Ritz values to complex128, so the threshold is 100 * 2.2e-16 while the noise of a complex64 operator is 1e-7: "
-        "the identity probes take log(-1) = +i pi or -i pi by rounding and tr log A is off by a fraction of 2 pi.  Witness: "
-        "slogdet(Dense(complex64([[0,0,0,1],[2-14j,-2-11j,-9-5j,0],[-10-10j,-9-5j,-10+5j,0],[-15-8j,-14-2j,-10+10j,0]])), Arnoldi(max_iters=4, tol=1e-12)) "
-        "returns sign 0.84-0.54j, det/|det| = -0.889-0.457j (eigenvalues -8.42-6.72j, -3.58+0.72j, 1, -1); complex128 is right.  "
-        "Patch: `tiny = xnp.abs(z.imag) <= 100 * xnp.finfo(A.dtype).eps * xnp.abs(z)` (the precision of the OPERATOR)",
-}
+PROVISIONAL_KNOWN = {}   # all findings of this check are decided: fixed in /repo (krylov-cut-single-precision: 91895db) or recorded in /verif/known_findings.json
 
 TOL = {  # relative tolerance on sign * exp(logabs) by (path, precision)
     ("direct", "d"): 1e-9, ("direct", "s"): 5e-4,
@@ -553,30 +543,6 @@ def classify_range(case, ans, real):
     return "ok", ""
 
 
-CUT_CLAUSE = "krylov-cut-single-precision"
-
-
-def cut_single_precision(case, real, ref_log, tol):
-    """the decidable predicate of the provisional clause krylov-cut-single-precision: Arnoldi path, a complex64 base-case
-    operator with an eigenvalue on the negative real axis (|Im| <= 1e-4 |z|, Re < 0: exactly real in the exact payload),
-    and the MODULUS of the result right -- only the phase may be off"""
-    if case.get("la") != "arnoldi" or "err" in real:
-        return False
-    if not (math.isfinite(real["logabs"]) and abs(real["logabs"] - ref_log) <= 2 * tol * max(1.0, abs(ref_log))):
-        return False
-    try:
-        A = build.Builder().build(case["op"])
-        for Bop in base_operators(A):
-            if build.dtname(Bop.dtype) != "c64":
-                continue
-            w = np.linalg.eigvals(np.asarray(Bop.to_dense()).astype(np.complex128))
-            if np.any((w.real < 0) & (np.abs(w.imag) <= 1e-4 * np.abs(w))):
-                return True
-    except Exception:  # noqa: BLE001
-        return False
-    return False
-
-
 def classify(case, ans, real):
     """-> (status, detail).  status in ok, ok-spec-only, domain, precondition, known, violation, stale-model, driver-error"""
     if "error" in ans:
@@ -647,9 +613,6 @@ def classify(case, ans, real):
         return "violation", "real = code model, but both differ from the determinant and no precondition / recorded finding covers it"
     if rs:
         return "stale-model", "real agrees with the determinant but not with the code model"
-    lp = exact_logabs_phase(spec)
-    if lp is not None and cut_single_precision(case, real, lp[0], tol):
-        return "known", [CUT_CLAUSE]
     return "violation", f"sign * exp(logabs) = {v!r}, determinant = {z_spec!r}"
 
 
@@ -877,7 +840,8 @@ def build_cases(ctx, rng):
             t = ["diag", "f64", [2, -1]]
         for ta in TAS:
             cases.append({"op": t, "la": "arnoldi", "ta": ta, "stream": "arnoldi"})
-    # witness of the provisional clause krylov-cut-single-precision, and the same matrix in double precision (must be right)
+    # regression: complex64 operator with an eigenvalue -1 on the branch cut of the logarithm (repaired in /repo 91895db: the former
+    # clause krylov-cut-single-precision), and the same matrix in double precision -- both must pass the normal comparison
     Mw = [[0, 0, 0, 1], [[2, -14], [-2, -11], [-9, -5], 0], [[-10, -10], [-9, -5], [-10, 5], 0], [[-15, -8], [-14, -2], [-10, 10], 0]]
     for dtw in ("c64", "c128"):
         cases.append({"op": ["dense", dtw, 4, 4, Mw], "la": "arnoldi", "ta": None, "stream": "arnoldi"})
